@@ -254,9 +254,14 @@ class CombinedDataHandler:
 
         non_modeled_units_list = [units_blocklisted, units_with_zero_baseline, units_with_strange_turnout_factor]
 
+        # the outlier detection models are fit on the units that are still candidates for the model: units that are
+        # already excluded (blocklisted, zero baseline, strange turnout factor) must not decide which other units are outliers
+        already_non_modeled = pd.concat(non_modeled_units_list).geographic_unit_fips
+        outlier_candidates = reporting_units[~reporting_units.geographic_unit_fips.isin(already_non_modeled)]
+
         if fit_turnout_outlier_model and reporting_units.shape[0] > self.n_minimum_for_outlier_detection_model:
             units_with_strange_turnout_factor_modeled = self._fit_outlier_detection_model(
-                reporting_units, "turnout_factor", outlier_z_threshold
+                outlier_candidates, "turnout_factor", outlier_z_threshold
             )
             units_with_strange_turnout_factor_modeled["unit_category"] = "non-modeled: strange turnout factor modeled"
             non_modeled_units_list.append(units_with_strange_turnout_factor_modeled)
@@ -264,7 +269,7 @@ class CombinedDataHandler:
         if "margin" in self.estimands:
             if fit_margin_outlier_model and reporting_units.shape[0] > self.n_minimum_for_outlier_detection_model:
                 units_with_strange_margin_change_modeled = self._fit_outlier_detection_model(
-                    reporting_units, "results_normalized_margin", outlier_z_threshold
+                    outlier_candidates, "results_normalized_margin", outlier_z_threshold
                 )
                 units_with_strange_margin_change_modeled["unit_category"] = "non-modeled: strange margin change modeled"
                 non_modeled_units_list.append(units_with_strange_margin_change_modeled)
